@@ -318,7 +318,11 @@ Lemma addr_loop_ok limit p : forall l cn cn' keep,
 Proof.
   induction l as [|[g|] r IH]; intros cn cn' keep Hok H; cbn in H.
   - inversion H; subst. split; [exact Hok|]. split; [apply incl_refl|]. intros _ g [].
-  - destruct (limit <=? length (members g cn)) eqn:E.
+  - destruct (existsb (pair_eqb (g, p)) cn) eqn:Em.
+    { apply existsb_pair in Em. destruct (IH _ _ _ Hok H) as (Hok' & Hincl & Hk).
+      split; [exact Hok'|]. split; [exact Hincl|].
+      intros Hkeep g' Hg'. cbn in Hg'. destruct Hg' as [<-|Hg']; [apply Hincl, Em|apply Hk; assumption]. }
+    destruct (limit <=? length (members g cn)) eqn:E.
     + inversion H; subst. split; [exact Hok|]. split; [apply incl_refl|]. discriminate.
     + apply Nat.leb_gt in E.
       assert (Hok1 : counts_ok limit (count_add g p cn)).
@@ -448,34 +452,37 @@ Definition exact_inv (t : table) (st : scan_st) : Prop :=
   forall g p, In (g, p) (s_counts st) -> In p (s_peers st) /\ In g (addr_groups (addrs_of t p)).
 
 Lemma addr_loop_pass limit k : forall l cn,
-  NoDup cn -> NoDup (addr_groups l) ->
-  (forall g, In g (addr_groups l) -> length (members g cn) < limit) ->
+  NoDup cn ->
+  (forall g, In g (addr_groups l) -> In (g, k) cn \/ length (members g cn) < limit) ->
   exists cn', addr_loop limit k l cn = (cn', true) /\ NoDup cn' /\
               forall g p, In (g, p) cn' -> In (g, p) cn \/ (p = k /\ In g (addr_groups l)).
 Proof.
-  induction l as [|[g|] r IH]; intros cn Hnd Hg Hlt; cbn.
+  induction l as [|[g|] r IH]; intros cn Hnd Hlt; cbn [addr_loop].
   - exists cn. split; [reflexivity|]. split; [exact Hnd|]. auto.
-  - cbn in Hg. inversion Hg as [|? ? Hnin Hg']; subst.
-    assert (E : limit <=? length (members g cn) = false).
-    { apply Nat.leb_gt. apply Hlt. cbn. auto. }
-    rewrite E.
-    destruct (IH (count_add g k cn)) as (cn' & He & Hnd' & Hsub).
-    + apply count_add_nodup, Hnd.
-    + exact Hg'.
-    + intros g' Hg'in. rewrite members_count_add_other.
-      * apply Hlt. cbn. auto.
-      * intro; subst. contradiction.
-    + exists cn'. split; [exact He|]. split; [exact Hnd'|].
-      intros g' p Hin. destruct (Hsub _ _ Hin) as [Hc|[-> Hr]].
-      * apply count_add_inv in Hc as [Hc|Hc]; [inversion Hc; subst; right; cbn; auto|left; exact Hc].
-      * right. cbn. auto.
+  - destruct (existsb (pair_eqb (g, k)) cn) eqn:Em.
+    + destruct (IH cn Hnd) as (cn' & He & Hnd' & Hsub).
+      * intros g' Hg'. apply Hlt. cbn. auto.
+      * exists cn'. split; [exact He|]. split; [exact Hnd'|].
+        intros g' p Hin. destruct (Hsub _ _ Hin) as [Hc|[-> Hr]]; [left; exact Hc|right; cbn; auto].
+    + assert (Hnm : ~ In (g, k) cn) by (intro Hc; apply existsb_pair in Hc; congruence).
+      assert (E : limit <=? length (members g cn) = false).
+      { apply Nat.leb_gt. destruct (Hlt g) as [Hc|Hc]; [cbn; auto|contradiction|exact Hc]. }
+      rewrite E.
+      destruct (IH (count_add g k cn)) as (cn' & He & Hnd' & Hsub).
+      * apply count_add_nodup, Hnd.
+      * intros g' Hg'in. destruct (N.eq_dec g' g) as [->|Hne]; [left; apply count_add_in|].
+        destruct (Hlt g') as [Hc|Hc]; [cbn; auto|left; apply count_add_incl, Hc|].
+        right. rewrite members_count_add_other by exact Hne. exact Hc.
+      * exists cn'. split; [exact He|]. split; [exact Hnd'|].
+        intros g' p Hin. destruct (Hsub _ _ Hin) as [Hc|[-> Hr]].
+        -- apply count_add_inv in Hc as [Hc|Hc]; [inversion Hc; subst; right; cbn; auto|left; exact Hc].
+        -- right. cbn. auto.
   - apply IH; assumption.
 Qed.
 
 Lemma exact_scan (c : crawl) K limit :
   NoDup (map fst c) -> 1 <= K ->
-  (limit = 0 \/ ((forall g, group_size c g <= limit) /\
-                 (forall p a, In (p, a) c -> NoDup (addr_groups a)))) ->
+  (limit = 0 \/ forall g, group_size c g <= limit) ->
   forall page st,
     NoDup (s_peers st ++ page) -> incl (s_peers st ++ page) (map fst c) ->
     exact_inv (table_of c) st -> length (s_peers st) < K ->
@@ -494,14 +501,14 @@ Proof.
       exact_inv (table_of c) {| s_counts := c'; s_peers := s_peers st ++ [k] |}).
     { destruct Hinv as [Hcn Hown].
       destruct (0 <? limit) eqn:El.
-      - apply Nat.ltb_lt in El. destruct Hdiv as [->|[Hsize Hnda]]; [lia|].
+      - apply Nat.ltb_lt in El. destruct Hdiv as [->|Hsize]; [lia|].
         apply in_map_iff in Hk as ([k' a] & Hka & Hin). cbn in Hka. subst k'.
         assert (Ha : addrs_of (table_of c) k = a).
         { unfold addrs_of. cbn [t_addrs table_of]. rewrite (assoc_nodup k a c Hndc Hin). reflexivity. }
         rewrite Ha.
-        destruct (addr_loop_pass limit k a (s_counts st) Hcn (Hnda _ _ Hin)) as (cn' & He & Hnd' & Hsub).
+        destruct (addr_loop_pass limit k a (s_counts st) Hcn) as (cn' & He & Hnd' & Hsub).
         + (* every group of k still has room *)
-          intros g Hg.
+          intros g Hg. right.
           assert (Hkin : In k (filter (peer_in_group c g) (map fst c))).
           { apply filter_In. split; [apply in_map_iff; exists (k, a); auto|].
             unfold peer_in_group. rewrite Ha. apply nmem_in, Hg. }
@@ -540,8 +547,7 @@ Qed.
 
 Lemma exact_when_diverse (c : crawl) key K limit :
   NoDup (map fst c) -> 1 <= K ->
-  (limit = 0 \/ ((forall g, group_size c g <= limit) /\
-                 (forall p a, In (p, a) c -> NoDup (addr_groups a)))) ->
+  (limit = 0 \/ forall g, group_size c g <= limit) ->
   get_closest (table_of c) key K limit = Ok (closest_n key (map fst c) K).
 Proof.
   intros Hnd HK Hdiv. rewrite get_closest_flat by lia. f_equal.
@@ -555,28 +561,32 @@ Proof.
   all: split; [constructor|intros ? ? []].
 Qed.
 
-(* false without the "no group twice on one peer" hypothesis *)
-Lemma exact_when_diverse_refuted :
-  exists (c : crawl) key K limit,
-    NoDup (map fst c) /\ 1 <= K /\ (forall g, group_size c g <= limit) /\
-    get_closest (table_of c) key K limit = Ok [] /\ closest_n key (map fst c) K = [5%N].
-Proof.
-  exists [(5%N, [Some 1%N; Some 1%N])], 0%N, 1, 1.
-  split; [repeat constructor; intros []|]. split; [lia|]. split.
-  - intro g. unfold group_size. cbn [map fst filter]. destruct (peer_in_group _ g 5%N); cbn; lia.
-  - split; vm_compute; reflexivity.
-Qed.
-
 (* ================= 4. the constructor ================= *)
-Lemma constructor_limit_always_zero o f : new_fullrt o = Some f -> f_limit f = 0.
+Lemma new_fullrt_spec dbucket dlimit o f :
+  new_fullrt dbucket dlimit o = Some f ->
+  1 <= f_K f /\ f_limit f = configured_limit dlimit o /\
+  f_K f = match o_bucket o with Some k => k | None => dbucket end /\
+  (o_amino o = true -> f_K f = dbucket).
 Proof.
-  unfold new_fullrt. destruct (o_amino o && _); [discriminate|]. intro H. inversion H. reflexivity.
+  unfold new_fullrt.
+  destruct (o_amino o && negb ((match o_bucket o with Some k => k | None => dbucket end) =? dbucket)) eqn:Ea;
+    [discriminate|].
+  destruct (_ <? 1) eqn:Ek; [discriminate|]. intro H. inversion H; subst f. cbn.
+  apply Nat.ltb_ge in Ek. split; [exact Ek|]. split; [reflexivity|]. split; [reflexivity|].
+  intro Ham. rewrite Ham in Ea. cbn in Ea. apply negb_false_iff, Nat.eqb_eq in Ea. exact Ea.
 Qed.
-Lemma configured_limit_used_refuted :
-  exists o dflt f, new_fullrt o = Some f /\ configured_limit dflt o = 2 /\ f_limit f = 0.
+Lemma new_fullrt_rejects_small dbucket dlimit o k :
+  o_bucket o = Some k -> k < 1 -> new_fullrt dbucket dlimit o = None.
 Proof.
-  exists {| o_amino := false; o_bucket := Some 5; o_limit := Some 2 |}, 3. eexists.
-  split; [reflexivity|]. split; reflexivity.
+  intros Hb Hk. unfold new_fullrt. rewrite Hb. destruct (o_amino o && _); [reflexivity|].
+  apply Nat.ltb_lt in Hk. rewrite Hk. reflexivity.
+Qed.
+Lemma new_fullrt_default_bucket dbucket dlimit o :
+  o_bucket o = None -> 1 <= dbucket ->
+  new_fullrt dbucket dlimit o = Some {| f_K := dbucket; f_limit := configured_limit dlimit o |}.
+Proof.
+  intros Hb Hd. unfold new_fullrt. rewrite Hb, Nat.eqb_refl, andb_false_r.
+  apply Nat.ltb_ge in Hd. rewrite Hd. reflexivity.
 Qed.
 
 (* ================= 5. the table swap ================= *)
@@ -586,9 +596,9 @@ Definition read_ok (crawls : list crawl) (r : table * N * nat * nat * res (list 
   let '(tbl, key, K, limit, ans) := r in
   (tbl = empty_table \/ exists c, In c crawls /\ tbl = table_of c) /\ ans = get_closest tbl key K limit.
 
-Definition inv1 (s : fstate) : Prop :=
+Definition sinv (s : fstate) : Prop :=
   f_tbl s = latest_table (match f_pending s with Some _ => tl (f_crawls s) | None => f_crawls s end) /\
-  (match f_pending s with Some (c, _) => exists r, f_crawls s = c :: r | None => True end) /\
+  (match f_pending s with Some c => exists r, f_crawls s = c :: r | None => True end) /\
   Forall (read_ok (f_crawls s)) (f_reads s).
 
 Lemma read_ok_mono l c r : read_ok l r -> read_ok (c :: l) r.
@@ -600,111 +610,47 @@ Qed.
 Lemma latest_in l : latest_table l = empty_table \/ exists c, In c l /\ latest_table l = table_of c.
 Proof. destruct l as [|c l]; [left; reflexivity|right; exists c; split; [left|]; reflexivity]. Qed.
 
-Lemma fstep1_inv s e s' : inv1 s -> fstep1 s e = Some s' -> inv1 s'.
+Lemma fstep_inv s e s' : sinv s -> fstep s e = Some s' -> sinv s'.
 Proof.
   intros (Ht & Hp & Hr) H. destruct e as [c| |key K limit]; cbn in H.
   - destruct (f_pending s) eqn:E; [discriminate|]. inversion H; subst s'. clear H.
-    unfold inv1. cbn. split; [exact Ht|]. split; [eexists; reflexivity|].
+    unfold sinv. cbn. split; [exact Ht|]. split; [eexists; reflexivity|].
     eapply Forall_impl; [|exact Hr]. intros r. apply read_ok_mono.
-  - destruct (f_pending s) as [[c n]|] eqn:E; [|discriminate]. inversion H; subst s'. clear H.
-    destruct Hp as (r & Hc). unfold inv1. cbn. rewrite Hc. cbn. split; [reflexivity|]. split; [exact I|].
+  - destruct (f_pending s) as [c|] eqn:E; [|discriminate]. inversion H; subst s'. clear H.
+    destruct Hp as (r & Hc). unfold sinv. cbn. rewrite Hc. cbn. split; [reflexivity|]. split; [exact I|].
     rewrite <- Hc. exact Hr.
-  - inversion H; subst s'. clear H. unfold inv1, do_read. cbn. split; [exact Ht|]. split; [exact Hp|].
+  - inversion H; subst s'. clear H. unfold sinv, do_read. cbn. split; [exact Ht|]. split; [exact Hp|].
     constructor; [|exact Hr]. cbn. split; [|reflexivity].
     rewrite Ht.
-    destruct (f_pending s) as [[c n]|].
+    destruct (f_pending s) as [c|].
     + destruct Hp as (r & Hc). rewrite Hc. cbn.
       destruct (latest_in r) as [H|(c' & Hin & H)]; [left; exact H|right; exists c'; split; [right; exact Hin|exact H]].
     + apply latest_in.
 Qed.
 
-Lemma frun1_inv evs : forall s s', inv1 s -> frun fstep1 evs s = Some s' -> inv1 s'.
+Lemma frun_inv evs : forall s s', sinv s -> frun evs s = Some s' -> sinv s'.
 Proof.
   induction evs as [|e evs IH]; intros s s' Hi H; cbn in H; [inversion H; subst; exact Hi|].
-  destruct (fstep1 s e) as [s1|] eqn:E; [|discriminate].
-  eapply IH; [eapply fstep1_inv; eauto|exact H].
+  destruct (fstep s e) as [s1|] eqn:E; [|discriminate].
+  eapply IH; [eapply fstep_inv; eauto|exact H].
 Qed.
 
-(* with a one-step swap every reader, under every interleaving, gets the
-   answer computed on the table of one completed crawl (or on the initial
+Lemma sinv_init : sinv f_init.
+Proof. unfold sinv. cbn. split; [reflexivity|]. split; [exact I|constructor]. Qed.
+
+(* every reader, under every interleaving of reads with crawls and swaps, gets
+   the answer computed on the table of one completed crawl (or on the initial
    empty table) *)
-Lemma swap_atomic_reads_single_crawl evs s :
-  frun fstep1 evs f_init = Some s -> Forall (read_ok (f_crawls s)) (f_reads s).
-Proof.
-  intro H. apply (frun1_inv evs f_init s); [|exact H].
-  unfold inv1. cbn. split; [reflexivity|]. split; [exact I|constructor].
-Qed.
+Lemma swap_reads_single_crawl evs s :
+  frun evs f_init = Some s -> Forall (read_ok (f_crawls s)) (f_reads s).
+Proof. intro H. apply (frun_inv evs f_init s sinv_init H). Qed.
 
-(* the three steps as coded: between crawls the table is the last crawl's *)
-Definition stage (n : nat) (t : table) (c : crawl) : table :=
-  match n with
-  | 0 => t
-  | 1 => swap_addrs t c
-  | _ => swap_kmap (swap_addrs t c) c
-  end.
-Definition inv3 (s : fstate) : Prop :=
-  match f_pending s with
-  | None => f_tbl s = latest_table (f_crawls s)
-  | Some (c, n) => n <= 2 /\ exists r, f_crawls s = c :: r /\ f_tbl s = stage n (latest_table r) c
-  end.
-Lemma fstep3_inv s e s' : inv3 s -> fstep3 s e = Some s' -> inv3 s'.
-Proof.
-  unfold inv3. intros Hi H. destruct e as [c| |key K limit]; cbn in H.
-  - destruct (f_pending s) eqn:E; [discriminate|]. inversion H; subst s'. clear H. cbn.
-    split; [lia|]. exists (f_crawls s). split; [reflexivity|exact Hi].
-  - destruct (f_pending s) as [[c n]|] eqn:E; [|discriminate].
-    destruct Hi as (Hn & r & Hc & Ht).
-    destruct n as [|[|n]]; inversion H; subst s'; clear H; cbn.
-    + split; [lia|]. exists r. split; [exact Hc|]. rewrite Ht. reflexivity.
-    + split; [lia|]. exists r. split; [exact Hc|]. rewrite Ht. reflexivity.
-    + assert (n = 0) by lia. subst n. rewrite Hc, Ht. reflexivity.
-  - inversion H; subst s'. clear H. unfold do_read. cbn. exact Hi.
-Qed.
-Lemma swap_quiescent evs : forall s s',
-  inv3 s -> frun fstep3 evs s = Some s' -> inv3 s'.
-Proof.
-  induction evs as [|e evs IH]; intros s s' Hi H; cbn in H; [inversion H; subst; exact Hi|].
-  destruct (fstep3 s e) as [s1|] eqn:E; [|discriminate].
-  eapply IH; [eapply fstep3_inv; eauto|exact H].
-Qed.
-Lemma swap_quiescent_table evs s :
-  frun fstep3 evs f_init = Some s -> f_pending s = None -> f_tbl s = latest_table (f_crawls s).
-Proof.
-  intros H Hp. pose proof (swap_quiescent evs f_init s) as Hi.
-  unfold inv3 in Hi at 2. rewrite Hp in Hi. apply Hi; [reflexivity|exact H].
-Qed.
-
-(* a reader between the steps: neither crawl's answer, and two peers of one
-   group although the limit is 1 *)
-Definition sw_old : crawl := [(1%N, [Some 7%N]); (2%N, [Some 7%N])].
-Definition sw_new : crawl := [(3%N, [Some 9%N])].
-Definition sw_evs : list fev :=
-  [FCrawl sw_old; FStep; FStep; FStep; FCrawl sw_new; FStep; FRead 0%N 5 1].
-Lemma swap_interleaving_refuted :
-  exists s tbl ans,
-    frun fstep3 sw_evs f_init = Some s /\
-    In (tbl, 0%N, 5, 1, Ok ans) (f_reads s) /\
-    (forall c, In c (f_crawls s) -> get_closest (table_of c) 0%N 5 1 <> Ok ans) /\
-    get_closest empty_table 0%N 5 1 <> Ok ans /\
-    length (filter (peer_in_group sw_old 7%N) ans) = 2.
-Proof.
-  eexists. eexists. exists [1%N; 2%N].
-  split; [vm_compute; reflexivity|].
-  split; [left; reflexivity|].
-  split.
-  - intros c [<-|[<-|[]]]; vm_compute; discriminate.
-  - split; [vm_compute; discriminate|vm_compute; reflexivity].
-Qed.
-
-(* the next crawl is seeded with a found bootstrap peer twice *)
-Lemma reseed_duplicates found bootstrap b :
-  In b bootstrap -> In b (map fst found) -> ~ NoDup (crawl_seeds found bootstrap).
-Proof.
-  intros Hb Hf Hnd. unfold crawl_seeds in Hnd.
-  apply in_split in Hf as (l1 & l2 & Hf). rewrite Hf in Hnd.
-  rewrite <- app_assoc in Hnd. apply NoDup_remove_2 in Hnd.
-  apply Hnd. rewrite app_assoc. apply in_or_app. right. exact Hb.
-Qed.
+(* between crawls the table is the last crawl's; while one waits to be
+   installed it is still the previous one's *)
+Lemma swap_table evs s :
+  frun evs f_init = Some s ->
+  f_tbl s = latest_table (match f_pending s with Some _ => tl (f_crawls s) | None => f_crawls s end).
+Proof. intro H. apply (frun_inv evs f_init s sinv_init H). Qed.
 
 (* ================= 7. bulk arithmetic ================= *)
 Lemma bulk_chunk_size_ok nkeys K numPeers :
@@ -764,41 +710,39 @@ Proof.
 Qed.
 
 Lemma bulk_no_panic t K limit keys :
-  t_kmap t <> [] -> 0 < K + 2 * limit -> exists r, bulk_send t K limit keys = Ok r.
+  0 < K + 2 * limit -> exists r, bulk_send t K limit keys = Ok r.
 Proof.
-  intros Hne Hs. unfold bulk_send. destruct keys as [|k r]; [exists RNil; reflexivity|].
+  intros Hs. unfold bulk_send. destruct keys as [|k r]; [exists RNil; reflexivity|].
+  destruct (length (t_kmap t) =? 0) eqn:Ez; [exists RErr; reflexivity|].
+  apply Nat.eqb_neq in Ez.
   destruct (bulk_chunk_size_ok (Z.of_nat (length (k :: r))) (Z.of_nat K) (Z.of_nat (length (t_kmap t))))
     as (c & Hc & Hc1); try lia.
-  { destruct (t_kmap t); [contradiction|cbn [length]; lia]. }
   rewrite Hc. cbn [bind].
   destruct (divide_by_chunk_size_ok (k :: r) c Hc1) as (g & Hg & _). rewrite Hg. cbn [bind].
   destruct (closest_each_ok t K limit Hs (concat g)) as (ps & Hps). rewrite Hps. cbn [bind].
   eexists; reflexivity.
 Qed.
-Lemma bulk_empty_table_panics K limit k keys :
-  bulk_send (table_of []) K limit (k :: keys) = Panic "integer divide by zero".
-Proof. unfold bulk_send. cbn [table_of map t_kmap length]. rewrite bulk_chunk_size_zero_peers. reflexivity. Qed.
+Lemma bulk_empty_table_errors K limit keys :
+  keys <> [] -> bulk_send (table_of []) K limit keys = Ok RErr.
+Proof. intro H. destruct keys; [contradiction|reflexivity]. Qed.
 Lemma single_empty_table_errors key K limit : single_send (table_of []) key K limit = Ok RErr.
 Proof. reflexivity. Qed.
 
 (* ================= 8. missing options ================= *)
-Lemma missing_options_spin o :
-  o_amino o = false -> o_bucket o = None ->
-  exists f, new_fullrt o = Some f /\ f_K f = 0 /\ f_limit f = 0 /\
-  forall (c : crawl) key fuel, c <> [] ->
-    get_closest_fuel fuel (table_of c) key (f_K f) (f_limit f) =
-    Blocked "GetClosestPeers: paging loop still running".
+(* a constructed client's lookups return, on every table *)
+Lemma constructed_lookup_returns dbucket dlimit o f t key :
+  new_fullrt dbucket dlimit o = Some f ->
+  exists l, get_closest t key (f_K f) (f_limit f) = Ok l.
 Proof.
-  intros Ha Hb. unfold new_fullrt. rewrite Ha, Hb. cbn. eexists. split; [reflexivity|].
-  cbn. split; [reflexivity|]. split; [reflexivity|].
-  intros c key fuel Hne. unfold get_closest_fuel. apply paging_spins.
-  destruct c; [contradiction|discriminate].
+  intro H. destruct (new_fullrt_spec _ _ _ _ H) as (HK & _).
+  destruct (closest_terminates t key (f_K f) (f_limit f)) as (l & Hl & _); [lia|].
+  exists l. exact Hl.
 Qed.
-Lemma k0_returns_whole_table_refuted :
-  exists (c : crawl) key limit l, NoDup (map fst c) /\
-    get_closest (table_of c) key 0 limit = Ok l /\ length l = 2.
+(* the state the old constructor could produce still spins: the constructor is
+   what excludes it *)
+Lemma zero_step_spins (c : crawl) key fuel :
+  c <> [] -> get_closest_fuel fuel (table_of c) key 0 0 =
+             Blocked "GetClosestPeers: paging loop still running".
 Proof.
-  exists [(1%N, []); (2%N, [])], 0%N, 1. eexists.
-  split; [repeat constructor; cbn; intuition discriminate|].
-  split; [vm_compute; reflexivity|reflexivity].
+  intro Hne. unfold get_closest_fuel. apply paging_spins. destruct c; [contradiction|discriminate].
 Qed.
